@@ -7,9 +7,10 @@
      logging goroutine g   Writef/WriteLog/Trace:  format the entry            LogCall e   (visible: the call begins)
                                                     logQueue <- v               Enq g       (internal; blocks while the queue is full)
                                                     return                      LogRet e    (visible)
-     FlushLogger caller    call (first, or again after a return)                FlushCall   (visible)
-                           syncCancel()                                         Request     (internal)
-                           select { <-time.After(1s) | <-asyncDone.Done() }     FlushRet b  (visible; b = woken by asyncDone)
+     FlushLogger caller c  call (any number of concurrent callers; each may   FlushCall c (visible)
+                             call again after its call returned)
+                           syncCancel()   (idempotent)                          Request c   (internal)
+                           select { <-time.After(1s) | <-asyncDone.Done() }     FlushRet c b (visible; b = woken by asyncDone)
      flusher (flushLog)    select { v := <-logQueue | default }                 PollTake e / PollEmpty   (internal)
                            [verifYield()]                                        (no-op)
                            select { v := <-logQueue | <-syncDone }              InnerTake e / InnerSync  (internal)
@@ -31,13 +32,13 @@ Definition entry_eqb (a b : entry) : bool := (eg a =? eg b) && (en a =? en b) &&
 
 Inductive lpc := LIdle | LSending (e : entry) | LSent (e : entry).
 Inductive fpc := Top | Inner | Drain | Done | HoldT (e : entry) | HoldD (e : entry).   (* HoldT: back to Top after the Write; HoldD: back to the drain loop *)
-(* FlushLogger caller: the first call (FCalled .. FReturned) and any later call (FLCalled .. FLReturned) *)
-Inductive flpc := FNone | FCalled | FRequested | FReturned (done : bool)
-                | FLCalled | FLRequested | FLReturned (done : bool).
+(* one FlushLogger caller (Run's deferred call, CheckPanic in any goroutine, the application): not calling, called,
+   has signalled, returned; a caller may call again after its call returned *)
+Inductive flpc := FNone | FCalled | FRequested | FReturned (done : bool).
 
 Inductive label :=
 | LogCall (e : entry) | Enq (g : N) | LogRet (e : entry)
-| FlushCall | Request | FlushRet (done : bool)
+| FlushCall (c : N) | Request (c : N) | FlushRet (c : N) (done : bool)
 | PollTake (e : entry) | PollEmpty | InnerTake (e : entry) | InnerSync | DrainTake (e : entry) | DrainDone
 | Write (e : entry).
 
@@ -45,28 +46,27 @@ Record st := mk {
   q : list entry;          (* logQueue's buffer *)
   fp : fpc;                (* flusher's program counter *)
   req : bool;              (* syncDone cancelled *)
-  fl : flpc;               (* FlushLogger caller *)
+  fl : N -> flpc;          (* FlushLogger callers *)
   lp : N -> lpc;           (* logging goroutines *)
   cnt : N -> N;            (* next sequence number of each goroutine *)
   (* ghost history *)
   hist : list entry;       (* everything enqueued, in queue order *)
   written : list entry;    (* every Write, in order *)
   retd : list entry;       (* entries whose logging call has returned *)
-  pre_call : list entry;   (* retd at the moment FlushLogger was called *)
-  pre_req : list entry     (* hist at the moment of syncCancel() *)
+  pre_req : list entry     (* hist at the moment of the first syncCancel() *)
 }.
 
 Definition upd {A} (f : N -> A) (g : N) (v : A) : N -> A := fun x => if x =? g then v else f x.
 
 Definition init : st :=
-  mk [] Top false FNone (fun _ => LIdle) (fun _ => 0) [] [] [] [] [].
+  mk [] Top false (fun _ => FNone) (fun _ => LIdle) (fun _ => 0) [] [] [] [].
 
 (* a receive: the head of the queue becomes the held entry *)
 Definition take (s : st) (e : entry) (at_pc next : fpc) : option st :=
   match fp s, q s with
   | p, e' :: r =>
       if match p, at_pc with Top, Top | Inner, Inner | Drain, Drain => true | _, _ => false end && entry_eqb e e'
-      then Some (mk r next (req s) (fl s) (lp s) (cnt s) (hist s) (written s) (retd s) (pre_call s) (pre_req s))
+      then Some (mk r next (req s) (fl s) (lp s) (cnt s) (hist s) (written s) (retd s) (pre_req s))
       else None
   | _, [] => None
   end.
@@ -78,7 +78,7 @@ Definition gstep (drain : bool) (cap : N) (s : st) (l : label) : option st :=
       match lp s (eg e) with
       | LIdle => if en e =? cnt s (eg e)
                  then Some (mk (q s) (fp s) (req s) (fl s) (upd (lp s) (eg e) (LSending e)) (upd (cnt s) (eg e) (cnt s (eg e) + 1))
-                               (hist s) (written s) (retd s) (pre_call s) (pre_req s))
+                               (hist s) (written s) (retd s) (pre_req s))
                  else None
       | _ => None
       end
@@ -86,7 +86,7 @@ Definition gstep (drain : bool) (cap : N) (s : st) (l : label) : option st :=
       match lp s g with
       | LSending e => if N.of_nat (length (q s)) <? cap
                       then Some (mk (q s ++ [e]) (fp s) (req s) (fl s) (upd (lp s) g (LSent e)) (cnt s)
-                                    (hist s ++ [e]) (written s) (retd s) (pre_call s) (pre_req s))
+                                    (hist s ++ [e]) (written s) (retd s) (pre_req s))
                       else None
       | _ => None
       end
@@ -94,40 +94,35 @@ Definition gstep (drain : bool) (cap : N) (s : st) (l : label) : option st :=
       match lp s (eg e) with
       | LSent e' => if entry_eqb e e'
                     then Some (mk (q s) (fp s) (req s) (fl s) (upd (lp s) (eg e) LIdle) (cnt s)
-                                  (hist s) (written s) (e' :: retd s) (pre_call s) (pre_req s))
+                                  (hist s) (written s) (e' :: retd s) (pre_req s))
                     else None
       | _ => None
       end
-  | FlushCall =>
-      match fl s with
-      | FNone => Some (mk (q s) (fp s) (req s) FCalled (lp s) (cnt s) (hist s) (written s) (retd s) (retd s) (pre_req s))
-      | FReturned _ | FLReturned _ =>   (* a later call; the ghosts keep describing the first one *)
-          Some (mk (q s) (fp s) (req s) FLCalled (lp s) (cnt s) (hist s) (written s) (retd s) (pre_call s) (pre_req s))
+  | FlushCall c =>
+      match fl s c with
+      | FNone | FReturned _ =>
+          Some (mk (q s) (fp s) (req s) (upd (fl s) c FCalled) (lp s) (cnt s) (hist s) (written s) (retd s) (pre_req s))
       | _ => None
       end
-  | Request =>
-      match fl s with
-      | FCalled => Some (mk (q s) (fp s) true FRequested (lp s) (cnt s) (hist s) (written s) (retd s) (pre_call s) (hist s))
-      | FLCalled =>   (* syncCancel() again: no effect *)
-          Some (mk (q s) (fp s) (req s) FLRequested (lp s) (cnt s) (hist s) (written s) (retd s) (pre_call s) (pre_req s))
+  | Request c =>
+      match fl s c with
+      | FCalled =>   (* syncCancel(): only the first one has an effect *)
+          Some (mk (q s) (fp s) true (upd (fl s) c FRequested) (lp s) (cnt s) (hist s) (written s) (retd s)
+                   (if req s then pre_req s else hist s))
       | _ => None
       end
-  | FlushRet b =>
-      match fl s with
+  | FlushRet c b =>
+      match fl s c with
       | FRequested =>
           if negb b || match fp s with Done => true | _ => false end
-          then Some (mk (q s) (fp s) (req s) (FReturned b) (lp s) (cnt s) (hist s) (written s) (retd s) (pre_call s) (pre_req s))
-          else None
-      | FLRequested =>
-          if negb b || match fp s with Done => true | _ => false end
-          then Some (mk (q s) (fp s) (req s) (FLReturned b) (lp s) (cnt s) (hist s) (written s) (retd s) (pre_call s) (pre_req s))
+          then Some (mk (q s) (fp s) (req s) (upd (fl s) c (FReturned b)) (lp s) (cnt s) (hist s) (written s) (retd s) (pre_req s))
           else None
       | _ => None
       end
   | PollTake e => take s e Top (HoldT e)
   | PollEmpty =>
       match fp s, q s with
-      | Top, [] => Some (mk [] Inner (req s) (fl s) (lp s) (cnt s) (hist s) (written s) (retd s) (pre_call s) (pre_req s))
+      | Top, [] => Some (mk [] Inner (req s) (fl s) (lp s) (cnt s) (hist s) (written s) (retd s) (pre_req s))
       | _, _ => None
       end
   | InnerTake e => take s e Inner (HoldT e)
@@ -135,23 +130,23 @@ Definition gstep (drain : bool) (cap : N) (s : st) (l : label) : option st :=
       match fp s with
       | Inner => if req s
                  then Some (mk (q s) (if drain then Drain else Done) (req s) (fl s) (lp s) (cnt s)
-                               (hist s) (written s) (retd s) (pre_call s) (pre_req s))
+                               (hist s) (written s) (retd s) (pre_req s))
                  else None
       | _ => None
       end
   | DrainTake e => take s e Drain (HoldD e)
   | DrainDone =>
       match fp s, q s with
-      | Drain, [] => Some (mk [] Done (req s) (fl s) (lp s) (cnt s) (hist s) (written s) (retd s) (pre_call s) (pre_req s))
+      | Drain, [] => Some (mk [] Done (req s) (fl s) (lp s) (cnt s) (hist s) (written s) (retd s) (pre_req s))
       | _, _ => None
       end
   | Write e =>
       match fp s with
       | HoldT e' => if entry_eqb e e'
-                    then Some (mk (q s) Top (req s) (fl s) (lp s) (cnt s) (hist s) (written s ++ [e']) (retd s) (pre_call s) (pre_req s))
+                    then Some (mk (q s) Top (req s) (fl s) (lp s) (cnt s) (hist s) (written s ++ [e']) (retd s) (pre_req s))
                     else None
       | HoldD e' => if entry_eqb e e'
-                    then Some (mk (q s) Drain (req s) (fl s) (lp s) (cnt s) (hist s) (written s ++ [e']) (retd s) (pre_call s) (pre_req s))
+                    then Some (mk (q s) Drain (req s) (fl s) (lp s) (cnt s) (hist s) (written s ++ [e']) (retd s) (pre_req s))
                     else None
       | _ => None
       end
@@ -181,16 +176,16 @@ Fixpoint flusher_steps (ls : list label) : nat :=
 
 (* ---------- what an observer of the implementation sees ---------- *)
 
-Inductive event := ECall (e : entry) | ERet (e : entry) | EWrite (e : entry) | EFlushCall | EFlushRet (done : bool).
+Inductive event := ECall (e : entry) | ERet (e : entry) | EWrite (e : entry) | EFlushCall (c : N) | EFlushRet (c : N) (done : bool).
 
 Definition vis (l : label) : option event :=
   match l with
   | LogCall e => Some (ECall e)
   | LogRet e => Some (ERet e)
   | Write e => Some (EWrite e)
-  | FlushCall => Some EFlushCall
-  | FlushRet b => Some (EFlushRet b)
-  | Enq _ | Request | PollTake _ | PollEmpty | InnerTake _ | InnerSync | DrainTake _ | DrainDone => None
+  | FlushCall c => Some (EFlushCall c)
+  | FlushRet c b => Some (EFlushRet c b)
+  | Enq _ | Request _ | PollTake _ | PollEmpty | InnerTake _ | InnerSync | DrainTake _ | DrainDone => None
   end.
 
 Fixpoint visible (ls : list label) : list event :=
@@ -224,12 +219,14 @@ Fixpoint calls_of (ls : list label) : list entry :=
    yet written, when its call began, and for those whose call has also returned, when it returned.
      EWrite e      e was submitted, is unwritten, the flusher has not finished, and no other unwritten entry's
                    call returned before e's call began (the queue is FIFO: such an entry was enqueued first);
-     EFlushRet tt  no entry whose call returned before the FIRST EFlushCall is still unwritten; no Write afterwards
-                   (FlushLogger may be called again: a later call returns on the first call's acknowledgement, and
-                   nothing more is promised — the flusher has returned; known finding "second flush").
+     EFlushRet c tt  no entry whose call returned before the FIRST EFlushCall (of any caller) is still unwritten; no Write
+                   afterwards (FlushLogger may be called concurrently and again: every call returns on the one
+                   acknowledgement, and nothing more is promised — the flusher has returned; known finding "second flush").
    Per-goroutine order and exactly-once follow (a goroutine's next call begins after its previous one returned). *)
 
-Inductive afl := ANone | ACalled (t : N) | ARet (t : N).   (* t: time of the FIRST FlushLogger call *)
+(* time of the first FlushLogger call of any caller; callers whose call is in progress *)
+Record afl := mkFl { f_first : option N; f_in : list N }.
+Definition mem_N (c : N) (l : list N) : bool := existsb (N.eqb c) l.
 
 Record ast := mkA {
   a_t : N;
@@ -241,7 +238,7 @@ Record ast := mkA {
   a_done : bool                  (* the flusher has acknowledged the flush and returned *)
 }.
 
-Definition ainit : ast := mkA 0 [] [] [] [] ANone false.
+Definition ainit : ast := mkA 0 [] [] [] [] (mkFl None []) false.
 
 Fixpoint lookupN (k : N) (m : list (N * N)) : N :=
   match m with [] => 0 | (k', v) :: r => if k =? k' then v else lookupN k r end.
@@ -274,22 +271,22 @@ Definition astep (a : ast) (ev : event) : option ast :=
           else None
       | None => None
       end
-  | EFlushCall =>
-      match a_fl a with
-      | ANone => Some (mkA (t + 1) (a_fly a) (a_next a) (a_unw a) (a_ret a) (ACalled t) (a_done a))
-      | ARet f => Some (mkA (t + 1) (a_fly a) (a_next a) (a_unw a) (a_ret a) (ACalled f) (a_done a))   (* a later call *)
-      | ACalled _ => None
-      end
-  | EFlushRet b =>
-      match a_fl a with
-      | ACalled f =>
-          if b then
-            if forallb (fun p => f <? snd p) (a_ret a)
-            then Some (mkA (t + 1) (a_fly a) (a_next a) (a_unw a) (a_ret a) (ARet f) true)
-            else None
-          else Some (mkA (t + 1) (a_fly a) (a_next a) (a_unw a) (a_ret a) (ARet f) (a_done a))
-      | _ => None
-      end
+  | EFlushCall c =>
+      if mem_N c (f_in (a_fl a)) then None
+      else Some (mkA (t + 1) (a_fly a) (a_next a) (a_unw a) (a_ret a)
+                     (mkFl (match f_first (a_fl a) with Some f => Some f | None => Some t end) (c :: f_in (a_fl a))) (a_done a))
+  | EFlushRet c b =>
+      if mem_N c (f_in (a_fl a)) then
+        let fl' := mkFl (f_first (a_fl a)) (filter (fun x => negb (c =? x)) (f_in (a_fl a))) in
+        if b then
+          match f_first (a_fl a) with
+          | Some f => if forallb (fun p => f <? snd p) (a_ret a)
+                      then Some (mkA (t + 1) (a_fly a) (a_next a) (a_unw a) (a_ret a) fl' true)
+                      else None
+          | None => None
+          end
+        else Some (mkA (t + 1) (a_fly a) (a_next a) (a_unw a) (a_ret a) fl' (a_done a))
+      else None
   end.
 
 Fixpoint arun (a : ast) (tr : list event) : option ast :=
@@ -309,17 +306,17 @@ Fixpoint reject_at (a : ast) (tr : list event) (i : N) : option N :=
   end.
 
 (* ---------- case files written by the harness ---------- *)
-(* an event is (kind, g, n, w): 0 call, 1 return, 2 write, 3 FlushLogger called, 4 returned (flusher done),
-   5 returned (timer) *)
+(* an event is (kind, g, n, w): 0 call, 1 return, 2 write, 3 FlushLogger called by caller g, 4 its call returned
+   (flusher done), 5 returned (timer) *)
 Definition decode_event (x : N * N * N * N) : option event :=
   let '(k, g, n, w) := x in
   match k with
   | 0 => Some (ECall (mkE g n w))
   | 1 => Some (ERet (mkE g n w))
   | 2 => Some (EWrite (mkE g n w))
-  | 3 => Some EFlushCall
-  | 4 => Some (EFlushRet true)
-  | 5 => Some (EFlushRet false)
+  | 3 => Some (EFlushCall g)
+  | 4 => Some (EFlushRet g true)
+  | 5 => Some (EFlushRet g false)
   | _ => None
   end.
 Fixpoint decode_trace (l : list (N * N * N * N)) : option (list event) :=
